@@ -50,8 +50,26 @@ pub fn run(rep: &mut Rep) {
                 return;
             }
             let id = format!("{name}:{}", ch.id());
-            // cut the connection
-            w.eof();
+            // cut the connection: end-of-stream, or a write error that hits the next packet the client writes - the PUBREL
+            // answering a PUBREC if a QoS 2 publish is waiting for one, else a new QoS 1 PUBLISH (0-3 bytes of it get out)
+            let cut_mode = (acts.len() + ci + ch.id().len()) % 3;
+            if cut_mode == 0 {
+                w.eof();
+            } else {
+                let at = w.sim.written_len() + if cut_mode == 2 { acts.len() % 4 } else { 0 };
+                w.sim.writer.0.borrow_mut().err_at = Some(at);
+                w.sim.note(|| format!("transport: writes fail from offset {at}"));
+                w.term = Some(Term::WriteErr);
+                let waiting = w.ackable().into_iter().find(|&(i, st)| st == 1 && w.m[i].kind == Kind::Pub2);
+                match waiting {
+                    Some((i, _)) => w.deliver_ack(i, 1, 0, 0),
+                    None => {
+                        let i = w.start(0, Kind::Pub1);
+                        w.m[i].after_term = true;
+                    }
+                }
+                rep.add("connections_cut_by_write_error", 1);
+            }
             w.settle_check();
             let exp = expired(over.unwrap_or(interval), ago);
             let (pubs, rels) = w.unfinished();
